@@ -50,6 +50,10 @@ struct RCase {
 	/// an OLDER pending transaction with a far later cutoff exists (cutoffs not monotone in creation order)
 	#[serde(default)]
 	older_far: bool,
+	/// the target is a late-locked send finalized this many blocks after its initiation
+	/// (the log entry, with its cutoff, is only written at finalization)
+	#[serde(default)]
+	late_lock_gap: Option<u64>,
 }
 
 fn base_world(dir: &str) {
@@ -195,9 +199,24 @@ fn run_rcase_inner(w: &World, c: &RCase) -> Result<String, (String, String)> {
 	}
 	let mut args = default_args(5 * G);
 	args.ttl_blocks = c.ttl_blocks;
-	let s1 = a.init_send(args).unwrap();
-	a.lock(&s1).unwrap();
-	let _s2 = b.receive(&s1, None).unwrap();
+	let s1 = if let Some(gap) = c.late_lock_gap {
+		args.late_lock = Some(true);
+		let s1 = a.init_send(args).unwrap();
+		let s2 = b.receive(&s1, None).unwrap();
+		for _ in 0..gap {
+			w.mine("M").unwrap();
+		}
+		if a.finalize(&s2).is_err() {
+			// finalization itself refused (expired by then): nothing pending to sweep
+			return Ok("late-finalize-refused".into());
+		}
+		s1
+	} else {
+		let s1 = a.init_send(args).unwrap();
+		a.lock(&s1).unwrap();
+		let _s2 = b.receive(&s1, None).unwrap();
+		s1
+	};
 	// control transaction without a cutoff, created alongside
 	let ctl = a.init_send(default_args(3 * G)).unwrap();
 	a.lock(&ctl).unwrap();
@@ -320,7 +339,12 @@ pub fn run(_args: &[String]) -> i32 {
 			for sender_side in [true, false].iter() {
 				for others in (if thorough { vec![0u32, 1, 2] } else { vec![0u32, 2] }).iter() {
 					for older_far in [false, true].iter() {
-						rcases.push(RCase { ttl_blocks: *ttl, mined, sender_side: *sender_side, others: *others, older_far: *older_far });
+						rcases.push(RCase { ttl_blocks: *ttl, mined, sender_side: *sender_side, others: *others, older_far: *older_far, late_lock_gap: None });
+						if *sender_side && !*older_far && *others == 0 && ttl.map(|t| t >= 2).unwrap_or(false) {
+							for gap in [1u64, 2].iter() {
+								rcases.push(RCase { ttl_blocks: *ttl, mined, sender_side: true, others: 0, older_far: false, late_lock_gap: Some(*gap) });
+							}
+						}
 					}
 				}
 			}
